@@ -28,16 +28,19 @@ type putRec struct {
 // poolMon adds the create/destroy accounting to the region monitor.
 type poolMon struct {
 	*mon
-	created   atomic.Int64
+	created    atomic.Int64
 	destroyedN atomic.Int64
-	nextID    atomic.Int64
+	nextID     atomic.Int64
 }
 
+// create only counts. "More than limit resources alive at a create" is NOT a verdict:
+// the statement bounds the users holding a resource (the gauge and the owner flag decide
+// that), not the number of objects in existence - an implementation may, for instance,
+// un-count an expired resource before its destroy callback has run.
 func (pm *poolMon) create() any {
 	live := pm.created.Add(1) - pm.destroyedN.Load()
 	if live > pm.n {
-		pm.viol("pool-create-beyond-limit", fmt.Sprintf("create called with %d resources already alive, limit %d (created-destroyed=%d at this create)", live-1, pm.n, live),
-			map[string]any{"created": pm.created.Load(), "destroyed": pm.destroyedN.Load()})
+		pm.c.Obs(pm.prim+"_creates_with_more_than_limit_resources_alive", 1)
 	}
 	return &res{id: pm.nextID.Add(1)}
 }
@@ -139,6 +142,9 @@ func ageStep(r *kit.Rand, maxAge time.Duration) time.Duration {
 }
 
 func poolConc(c *kit.Case, aged bool) {
+	if skipAfterLeak(c, map[bool]string{false: "pool", true: "pool-age"}[aged]) {
+		return
+	}
 	p, lk := genPoolPlan(c.R, aged)
 	prim := "pool"
 	var clk *kit.VClock
@@ -243,7 +249,7 @@ func (pm *poolMon) checkAge(rs *res, getInvokedAt int64, maxAge time.Duration, w
 // resources; an (n+1)-th Get must not return before something is put back.
 func (pm *poolMon) probe(pool *syncx.Pool, n int, phase string, clk *kit.VClock) {
 	m := pm.mon
-	m.c.Obs(m.prim+"_quiescence_probes", 1)
+	m.probeObs()
 	got := make([]*res, 0, n)
 	done := make(chan struct{})
 	m.running.Add(1)
@@ -265,11 +271,7 @@ func (pm *poolMon) probe(pool *syncx.Pool, n int, phase string, clk *kit.VClock)
 	}
 	var extraDone atomic.Bool
 	extra := make(chan any, 1)
-	go func() {
-		x := pool.Get()
-		extraDone.Store(true)
-		extra <- x
-	}()
+	go probeExtraGet(pool, &extraDone, extra)
 	for i := 0; i < 100; i++ {
 		runtime.Gosched()
 	}
@@ -282,12 +284,46 @@ func (pm *poolMon) probe(pool *syncx.Pool, n int, phase string, clk *kit.VClock)
 		pm.give(pool, rs, clk)
 		m.released.Add(1)
 	}
-	select {
-	case x := <-extra:
+	taken := func(x any) {
 		if rs, ok := x.(*res); ok {
 			pm.give(pool, rs, clk)
 		}
-	case <-time.After(caseWatchdog):
-		m.c.Inconclusive("pool probe: the (n+1)-th Get did not return after everything was put back")
 	}
+	select {
+	case x := <-extra:
+		taken(x)
+		return
+	case <-time.After(patience()):
+		patienceExpired()
+	}
+	// all n resources are idle again and nobody else uses the pool: a Get that is still
+	// parked (consecutive dumps) can never be served - the capacity is not available to it
+	t0 := time.Now()
+	parked := 0
+	for time.Since(t0) < caseWatchdog {
+		select {
+		case x := <-extra:
+			taken(x)
+			return
+		case <-time.After(stuckEvery):
+		}
+		if goroutineParked("c05.probeExtraGet") {
+			parked++
+		} else {
+			parked = 0
+		}
+		if parked >= stuckSamples {
+			m.viol("leak/blocked-get-not-served-after-put", fmt.Sprintf("pool of %d: a Get that blocked while all %d resources were held is still parked after all of them were put back and nobody else uses the pool (%s)", n, n, phase),
+				map[string]any{"goroutines": stacksBrief()})
+			leakVerdict(m.prim)
+			return
+		}
+	}
+	m.c.Inconclusive("pool probe: the (n+1)-th Get did not return after everything was put back")
+}
+
+func probeExtraGet(pool *syncx.Pool, done *atomic.Bool, out chan<- any) {
+	x := pool.Get()
+	done.Store(true)
+	out <- x
 }
